@@ -17,10 +17,10 @@ import z3
 import pyglove as pg
 from pyglove.core.typing import value_specs as vs
 from pyglove.core.typing import class_schema as cs
-from pyvc.contracts import Contract, register, spec
+from pyvc.contracts import Contract, register, spec, direct
 from pyvc.spec import implies, iff, forall_range, exists_range, ite
 from pyvc.values import SBool, SInt, SObj, SAny
-from pyvc import absobj
+from pyvc import absobj, interp as I
 
 M = 'pyglove.core.typing.value_specs'
 MV = pg.MISSING_VALUE
@@ -1083,3 +1083,106 @@ class TupleExtend(_TupleBase):
     # bounds are contradictory, min > max, accepts nothing and is harmless)
     return ite(tuple_fixed(self_), len(self_._elements) == self_._min_size,
                len(self_._elements) == 1)
+
+
+# ---------------------------------------------------------------------------
+# Schema.is_compatible: True exactly when both schemas declare the same keys and
+# every field of this schema is compatible with the field of the other schema
+# UNDER THE SAME KEY -- whatever the declaration order of either side.
+# Shape-bounded: key sets of size <= 3 in every relative order; the
+# compatibility of each pair of value specs is an unknown.
+
+from pyglove.core.typing import class_schema as _cschema   # noqa: E402  pylint: disable=wrong-import-position
+
+CS = 'pyglove.core.typing.class_schema'
+
+
+class _FieldValue:
+  """Stand-in for a field's value spec: only is_compatible is asked."""
+
+
+@register
+class SchemaIsCompatible(Contract):
+  prop = 'C04'
+  target = f'{CS}:Schema.is_compatible'
+  bounded = True
+  bound_note = 'schemas with <= 3 const keys, every relative declaration order, missing / extra keys; pairwise value-spec compatibility symbolic'
+  variants = (((), ()), (('a',), ('a',)), (('a', 'b'), ('a', 'b')), (('a', 'b'), ('b', 'a')),
+              (('a', 'b'), ('a',)), (('a',), ('a', 'b')), (('a', 'b'), ('a', 'c')),
+              (('a', 'b', 'c'), ('c', 'a', 'b')), (('a', 'b', 'c'), ('b', 'c', 'a')), (('c', 'b', 'a'), ('a', 'b', 'c')))
+
+  def label(self):
+    s, o = self.variant
+    return f'Schema.is_compatible[{"".join(s) or "-"}~{"".join(o) or "-"}]'
+
+  def inputs(self, b):
+    s_keys, o_keys = self.variant
+
+    def schema(keys, side):
+      fields = {}
+      for k in keys:
+        v = SObj(_FieldValue, {}, name=f'{side}.{k}')
+        v.ghost['key'] = (side, k)
+        fields[k] = SObj(_cschema.Field, {'_value': v, 'value': v}, name=f'{side}_field_{k}')
+      return SObj(_cschema.Schema, {'_fields': fields}, name=side)
+    self._self, self._other = schema(s_keys, 'self'), schema(o_keys, 'other')
+    self._compat = {}
+    return dict(self=self._self, other=self._other), {}
+
+  inline = (f'{CS}:Schema.keys', f'{CS}:Schema.values', f'{CS}:Schema.items', f'{CS}:Schema.__contains__',
+            f'{CS}:Schema.__getitem__', f'{CS}:Field.value')
+
+  def setup_policy(self, policy):
+    me = self
+
+    def getattr_h(interp, obj, name, frame):
+      if isinstance(obj, SObj) and obj.cls is _FieldValue and name == 'is_compatible':
+        def compat(ip, a, k):
+          o = ip.resolve(a[0])
+          key = (obj.ghost['key'], o.ghost.get('key') if isinstance(o, SObj) else None)
+          ip.path.event('compat', 'is_compatible', key)
+          if key not in me._compat:
+            me._compat[key] = z3.Bool(f'compatible_{key[0][1]}_with_{key[1][1] if key[1] else "?"}')
+            ip.path.symbols[str(me._compat[key])] = me._compat[key]
+          return SBool(me._compat[key])
+        return I.NativeFn(compat)
+      return NotImplemented
+    policy.handlers[('getattr', SObj)] = getattr_h
+
+  @direct
+  def ensures_same_keys_and_fields_compatible_key_by_key(self, interp, env):
+    s_keys, o_keys = self.variant
+    r = interp.truth_z(env['result'])
+    r = z3.BoolVal(r) if isinstance(r, bool) else r
+    if set(s_keys) != set(o_keys):
+      return z3.Not(r)
+    zs = []
+    for k in s_keys:
+      key = (('self', k), ('other', k))
+      if key not in self._compat:
+        # never asked: then the result cannot depend on it -- only allowed when it is False anyway
+        self._compat[key] = z3.Bool(f'compatible_{k}_with_{k}')
+      zs.append(self._compat[key])
+    return r == (z3.And(*zs) if zs else z3.BoolVal(True))
+
+  def trace_only_fields_of_the_same_key_are_compared(self, events, outcome, interp, env):
+    return all(e.data[1] is not None and e.data[0][1] == e.data[1][1] and e.data[0][0] == 'self' and e.data[1][0] == 'other'
+               for e in events if e.kind == 'compat')
+
+  def small_models(self):
+    from pyvc.contracts import Model
+    yield Model({}, {})
+
+  def replay(self, obligation, m):
+    t = pg.typing
+    bad = []
+    strict = t.Dict([('a', t.Int(min_value=0)), ('b', t.Int())])
+    for name, other in (('same keys, other order, weaker on a', t.Dict([('b', t.Int(min_value=0)), ('a', t.Int())])),
+                        ('missing key', t.Dict([('a', t.Int(min_value=0))])),
+                        ('extra key', t.Dict([('a', t.Int(min_value=0)), ('b', t.Int()), ('c', t.Int())]))):
+      if strict.schema.is_compatible(other.schema):
+        bad.append(f'{name}: Dict(a: Int(min 0), b: Int).schema.is_compatible({other!r:.80}.schema) is True')
+    same = t.Dict([('b', t.Int()), ('a', t.Int(min_value=0))])
+    if not strict.schema.is_compatible(same.schema):
+      bad.append('same fields declared in another order are reported incompatible')
+    return dict(outcome='reproduced' if bad else 'not-reproduced', detail='; '.join(bad) or 'compatibility is by key')
